@@ -446,7 +446,7 @@ BUILTIN_EXC = {
 
 TYPE_NAMES = {"date", "datetime", "timedelta", "time", "tzinfo", "list", "str",
               "tuple", "int", "dict", "object", "bytes", "bool", "float", "set",
-              "type", "Mapping", "MutableMapping"}
+              "type", "Mapping", "MutableMapping", "bytearray", "memoryview", "frozenset", "NoneType"}
 
 
 def external_type(dotted):
@@ -681,6 +681,14 @@ class Interp:
             return TypeTok("str")
         if isinstance(x, list):
             return TypeTok("list")
+        if isinstance(x, NT):
+            raise Unsupported("type() of a namedtuple")
+        for py, nm in ((bool, "bool"), (int, "int"), (float, "float"), (bytes, "bytes"), (tuple, "tuple"),
+                       (dict, "dict"), (frozenset, "frozenset"), (set, "set"), (type(None), "NoneType")):
+            if isinstance(x, py):
+                return TypeTok(nm)
+        if isinstance(x, TimeVal):
+            return TypeTok("time")
         raise Unsupported(f"type() of {x!r}")
 
     def _minmax(self, a, is_max, k=None):
@@ -723,7 +731,9 @@ class Interp:
             return {"tuple", "object"}
         if isinstance(x, dict):
             return {"dict", "object", "Mapping", "MutableMapping"}
-        if isinstance(x, (set, frozenset)):
+        if isinstance(x, frozenset):
+            return {"frozenset", "object"}
+        if isinstance(x, set):
             return {"set", "object"}
         if isinstance(x, DT):
             return {"date", "object"} | ({"datetime"} if x.is_datetime else set())
@@ -2142,6 +2152,10 @@ class Interp:
                            ("subday" if a.mag == "subday" and False else None) or a.mag))
             if isinstance(a, (int, float)) and isinstance(b, (int, float)):
                 return a * b
+            if isinstance(a, int) and not isinstance(a, bool) and isinstance(b, (list, tuple)):
+                a, b = b, a
+            if isinstance(a, (list, tuple)) and isinstance(b, int) and not isinstance(b, bool):
+                return a * b
         if isinstance(op, ast.Mod) and isinstance(a, bytes):
             args = b if isinstance(b, tuple) else (b,)
             args = tuple(x.strval if isinstance(x, Obj) and x.strval is not None else x for x in args)
@@ -2319,6 +2333,10 @@ class Interp:
                 return float(x)
             except (TypeError, ValueError) as e:
                 raise AbsRaise(type(e).__name__, str(e))
+        if t.name == "frozenset":
+            return frozenset(self._as_list(args[0])) if args else frozenset()
+        if t.name == "bytearray":
+            raise Unsupported("bytearray(...) values")
         if t.name == "bytes":
             x = args[0] if args else b""
             if isinstance(x, Obj) and x.strval is not None:
